@@ -439,6 +439,21 @@ def _child(case):
         host_scripts = [str(v[0]) for v in vols if len(v) > 1 and v[1] == "/scripts"]
         host_results = [str(v[0]) for v in vols if len(v) > 1 and v[1] == "/results"]
         rec["filelist_at_start"] = None
+        # like the daemon: a mount point given twice or a bind source that does not exist is refused
+        # before anything runs (exit status 125)
+        targets = [str(v[1]).rstrip("/") for v in vols if len(v) > 1]
+        dup = sorted({t for t in targets if targets.count(t) > 1})
+        gone = [str(v[0]) for v in vols if len(v) > 1 and os.path.isabs(str(v[0])) and not os.path.exists(str(v[0]))]
+        if dup or gone:
+            rec["refused"] = (f"Duplicate mount point: {dup[0]}" if dup else
+                              f"bind source path does not exist: {os.path.basename(gone[0])}")
+            bump("reach:docker_refused_mounts")
+
+            def gen_refused():
+                raise DockerException(["docker", "run", image], 125)
+                yield  # pragma: no cover
+
+            return gen_refused()
         if host_scripts:
             fl = os.path.join(host_scripts[0], "filelist.txt")
             if os.path.exists(fl):
@@ -748,6 +763,9 @@ def judge(rec, viols, bump, states, nontrivial, start_state, real_open):
     nontrivial.append(fingerprint(shape))
     call = rec["calls"][0]
     kw = call["kwargs"]
+    if rec.get("refused"):
+        V("docker-call", f"docker refuses to start the container: {rec['refused']}")
+        return
     if call["image"] not in rec["expected_image"]:
         V("docker-call", f"image {call['image']!r}, expected one of {rec['expected_image']!r}")
     if call["command"] != ["/scripts/runner.sh"]:
